@@ -498,6 +498,96 @@ def scan_layout_ob(mp, log_dir, tier="quick"):
 
 
 
+def eof_dedents_ob(mp, log_dir, tier="quick"):
+    statement = ("Lexer::tokenize after the last character: every level still open is closed by exactly one DEDENT (levels - 1 of them, the base level stays), then exactly one EOF "
+                 "follows, and the result is Ok(tokens) iff no error was recorded - so a file with and without a final newline ends in the same tokens")
+
+    def run():
+        import parse_props as pp
+        t0 = time.time()
+        P, R = pp.load()
+        fs = [v for k, v in P.fns.items() if k.endswith("::tokenize") and "Lexer" in "".join(v.blocks[next(iter(v.blocks))].stmts + [v.blocks[next(iter(v.blocks))].term or ""])] \
+            or [v for k, v in P.fns.items() if re.search(r"lexer::<impl at [^>]*>::tokenize$", k)]
+        if len(fs) != 1:
+            raise Inconclusive("Lexer::tokenize not found in the MIR dump")
+        f = fs[0]
+        entry = next((bn for bn, b in f.blocks.items() if b.term and "Vec::<usize>::len" in b.term), None)
+        td = R.resolve("lexer::Lexer")
+        names = [x[0] for x in td.variants[0][1]] if td else []
+        if entry is None or not all(n_ in names for n_ in ("indent_stack", "tokens", "errors")):
+            raise Inconclusive("the end-of-input part of tokenize (the loop over indent_stack.len()) was not found")
+        bad, npaths, queries, encoded = [], 0, 0, set()
+        for depth in range(1, (5 if tier == "quick" else 9)):
+            for nerr in (0, 1):
+                ex = mirx.make_executor(P, R, max_paths=100000)
+                ex.opaque_calls = mirx.slice_opaque
+                ex.model_sequences = True
+                ex.model_vecs = True
+                ex.seq_bound = 3
+                ex.tolerate_unsupported = True
+                ex.max_steps = 20000
+                ex.loop_bound = depth + 2
+                ex.summarize = (r"Token::new$", r"Span::new$", r"CompileError::new$", r"fmt::", r"drop_in_place", r"must_use")
+                ex.state_intrinsics = {**_vec_intrinsics(), **dict(mirx.STATE_INTRINSICS)}
+                lv = [S("int", "0", 64, False)] + [ex.sym_value("usize", n_) for n_ in ("a", "b", "c", "d", "e", "f", "g")[:depth - 1]]
+                ex.enc.side += [f"(< {x.term} {y.term})" for x, y in zip(lv, lv[1:])]
+                known = {"indent_stack": Adt("Vec", "lit", lv), "pending_dedents": S("int", "0", 64, False), "at_line_start": ex.enc.bool_var("als"),
+                         "tokens": Adt("Vec", "lit", []), "errors": Adt("Vec", "lit", [Opaque("err0")][:nerr]), "current_pos": ex.sym_value("usize", "pos"),
+                         "bracket_depth": ex.sym_value("usize", "bd")}
+                selfv = Adt("Lexer", None, [(n_, known.get(n_, Opaque(n_))) for n_ in names])
+                ex.call_stack = [f.name]
+                try:
+                    outs = ex._run(f, [selfv], {}, 0, symex.State(), entry=entry)
+                except (Unsupported, symex.PathExplosion) as x:
+                    raise Inconclusive(f"the end-of-input part of tokenize is not executable by the model: {str(x)[:160]}")
+                finally:
+                    ex.call_stack = []
+                encoded |= set(ex.encoded)
+                feas = solver.check_many(mp.smt_lines(ex, []), [[symex.conj(o.pc)] for o in outs], "z3", 120)
+                queries += len(outs)
+                for o, fz in zip(outs, feas):
+                    if fz == "unsat":
+                        continue
+                    npaths += 1
+                    if o.kind != "return":
+                        bad.append(f"{depth} levels: {o.kind}: {str(o.info)[:100]}")
+                        continue
+                    toks = [(re.search(r"TokenKind::(\w+)", " ".join(e[1])) or [None, "?"])[1] for e in o.state.events if e[0].endswith("Token::new")]
+                    res = ex.deref(o.value, o.state)
+                    variant = getattr(res, "variant", None)
+                    if toks != ["Dedent"] * (depth - 1) + ["Eof"]:
+                        bad.append(f"{depth} open levels end in the tokens {toks}")
+                    if variant != ("Ok" if nerr == 0 else "Err"):
+                        bad.append(f"{nerr} recorded error(s) but the result is {variant}")
+                    elif variant == "Ok":
+                        inner = ex.deref(res.fields[0][1] if isinstance(res.fields[0], tuple) else res.fields[0], o.state)
+                        if not (isinstance(inner, Adt) and inner.ty == "Vec" and len(inner.fields) == depth):
+                            bad.append(f"{depth} open levels: Ok carries {len(getattr(inner, 'fields', []))} tokens")
+        r = {"id": "X-eof_dedents", "engine": "E2-X mirsmt", "statement": statement,
+             "bound": f"the part of tokenize after the scanning loop; 1..={4 if tier == 'quick' else 8} open levels (symbolic columns), 0 or 1 recorded errors, no tokens yet",
+             "functions_encoded": sorted(x + " (MIR)" for x in encoded), "paths": npaths, "queries": queries, "wall_s": round(time.time() - t0, 2)}
+        if npaths == 0 and not bad:
+            r.update(status="inconclusive", reason="no feasible path explored")
+            return r
+        r["vacuity_ok"] = True
+        if not bad:
+            r.update(status="held", solver=f"{queries} z3 queries (path feasibility); the token trace of every path is levels-1 DEDENTs and one EOF")
+            return r
+        why = "; ".join(bad[:4])
+        broken, textn = layout_native(log_dir)
+        r["native"] = textn[:500]
+        if broken:
+            os.makedirs(os.path.join(common.REPLAYS_DIR, "MIRX"), exist_ok=True)
+            rp = os.path.join(common.REPLAYS_DIR, "MIRX", "X-eof_dedents.replay")
+            open(rp, "w").write(f"mirx lexlayout\n# {why[:500]}\n# native: {textn[:500]}\n")
+            r.update(status="violated", replay=rp, counterexample={"path": why[:500], "native": textn[:500]})
+        else:
+            r.update(status="inconclusive", reason=f"the end of tokenize deviates ({why[:300]}) but every layout variant of the example program parses to the same program")
+        return r
+    return mp.XOb("X-eof_dedents", statement, "", run)
+
+
+
 LAYOUT_BASE = '''def f(n: int) -> int:
     if n > 0:
         while n > 1:
@@ -541,6 +631,9 @@ def layout_variants(b):
         "comments": b.replace("    if n > 0:\n", "    # leading comment\n    if n > 0:  # trailing\n").replace("            n = n - 1\n", "            n = n - 1\n# col-0 comment\n        # deeper comment\n"),
         "bracket_breaks": b.replace("def f(n: int) -> int:", "def f(\n        n: int\n) -> int:").replace("List[int]", "List[\n  int\n    ]"),
         "mixed_tabs": "\n".join((reindent("\t").split("\n")[n_] if n_ % 2 else l) for n_, l in enumerate(b.split("\n"))),
+        "final_nonl": b,
+        "final_extra_newlines": b + "\n\n   \n",
+        "final_comment_nonl": b + "# the end",
         "blank_with_spaces": b.replace("\ndef g", "        \ndef g"),
     }
 
@@ -574,4 +667,4 @@ def build(pid, tier, log_dir):
     import mirx_props as mp
     if pid != "C10":
         return []
-    return [indent_step_ob(mp, log_dir, tier), indent_count_ob(mp, log_dir, tier), scan_layout_ob(mp, log_dir, tier)]
+    return [indent_step_ob(mp, log_dir, tier), indent_count_ob(mp, log_dir, tier), scan_layout_ob(mp, log_dir, tier), eof_dedents_ob(mp, log_dir, tier)]
